@@ -1091,3 +1091,7 @@ M('c06-pragma-synchronous-off', 'C06', "        cursor.execute('PRAGMA journal_m
 M('c05-no-explicit-begin', 'C05', "        conn.execute(text('BEGIN'))", "        pass", 'C05.R6', D)
 M('c04-no-explicit-begin', 'C04', "        conn.execute(text('BEGIN'))", "        pass", 'C04.Pdb', D)
 M('c01-progress-wrapper-seek-drops-whence', 'C01', "        return self._stream.seek(target, whence)\n\n    def tell(self) -> int:\n        \"\"\"Return current stream position.\"\"\"", "        return self._stream.seek(target)\n\n    def tell(self) -> int:\n        \"\"\"Return current stream position.\"\"\"", 'C01.R1', U)
+
+# ------------------------------------------------------------------------------------------------ option forwarding in wrappers
+M('c09-wrapper-drops-no-holes', 'C09', "            stream_list=stream_list,\n            compress=compress,\n            no_holes=no_holes,", "            stream_list=stream_list,\n            compress=compress,", 'C09.R7')
+M('c05-wrapper-drops-do-commit', 'C05', "            do_fsync=do_fsync,\n            do_commit=do_commit,\n        )\n\n    def loosen_object", "            do_fsync=do_fsync,\n        )\n\n    def loosen_object", 'C05.R7')
